@@ -170,4 +170,49 @@ theorem valid_eq (bs : List Nat) : valid bs = (rangeDecode bs).all okStep := by
   unfold valid
   congr 1
 
+theorem go_cons' (fuel off b : Nat) (rest : List Nat) :
+    rangeDecode.go (fuel + 1) off (b :: rest) =
+      (off, (decodeRune (b :: rest)).1,
+          if (decodeRune (b :: rest)).2 = 0 then 1 else (decodeRune (b :: rest)).2) ::
+        rangeDecode.go fuel
+          (off + if (decodeRune (b :: rest)).2 = 0 then 1 else (decodeRune (b :: rest)).2)
+          ((b :: rest).drop (if (decodeRune (b :: rest)).2 = 0 then 1 else (decodeRune (b :: rest)).2)) := by
+  rw [rangeDecode.go]
+
+/-- Re-encoding the runes of the range loop (`string([]rune(s))`, each invalid byte becomes
+U+FFFD), written on the loop itself. -/
+def reencode (steps : List (Nat × Int × Nat)) : List Nat := steps.flatMap fun x => encodeRune x.2.1
+
+theorem encode_runes (bs : List Nat) : encode (runes bs) = reencode (rangeDecode bs) := by
+  simp [encode, runes, reencode, List.flatMap_map]
+
+theorem reencode_valid_aux : ∀ (fuel : Nat) (s : List Nat) (off : Nat), s.length ≤ fuel →
+    (rangeDecode.go fuel off s).all okStep = true → reencode (rangeDecode.go fuel off s) = s
+  | 0, [], _, _, _ => by simp [rangeDecode.go, reencode]
+  | 0, _ :: _, _, h, _ => by simp at h
+  | fuel + 1, [], _, _, _ => by simp [rangeDecode.go, reencode]
+  | fuel + 1, b :: rest, off, hlen, hall => by
+    rw [go_cons'] at hall ⊢
+    rw [List.all_cons, Bool.and_eq_true] at hall
+    obtain ⟨hok, hall⟩ := hall
+    rcases decodeRune_cases b rest with herr | hdec
+    · rw [herr] at hok; simp [okStep] at hok
+    · have hs1 := hdec.sz1
+      have hsz : (if (decodeRune (b :: rest)).2 = 0 then 1 else (decodeRune (b :: rest)).2) =
+          (decodeRune (b :: rest)).2 := by
+        have : (decodeRune (b :: rest)).2 ≠ 0 := by omega
+        simp [this]
+      rw [hsz] at hall ⊢
+      have ih := reencode_valid_aux fuel ((b :: rest).drop (decodeRune (b :: rest)).2)
+        (off + (decodeRune (b :: rest)).2)
+        (by simp only [List.length_drop, List.length_cons] at hlen ⊢; omega) hall
+      simp only [reencode, List.flatMap_cons] at ih ⊢
+      rw [ih, hdec.enc, List.take_append_drop]
+
+/-- encode ∘ decode = id on valid UTF-8. -/
+theorem encode_runes_valid (bs : List Nat) (h : valid bs = true) : encode (runes bs) = bs := by
+  rw [encode_runes]
+  rw [valid_eq] at h
+  exact reencode_valid_aux bs.length bs 0 (Nat.le_refl _) h
+
 end Golib.Utf8
